@@ -85,6 +85,7 @@ Plan reuse_generate(uint64_t base, const std::string &prop, uint64_t index, int 
     int rk = k < 40 ? 0 : k < 55 ? 1 : k < 70 ? 2 : k < 80 ? 3 : k < 90 ? 4 : 5;
     p.par["rk"] = rk;
     if (ro.chance(1, 5)) p.par["nocb"] = 1;
+    { Rng rl = r.fork("layout"); if (rl.chance(1, 2)) { p.par["lead"] = (int64_t)rl.below(16); p.par["lead2"] = (int64_t)rl.below(16); } }   // reused and fresh object see the message at different alignments
     p.par["root2"] = rk == 0 ? rootb : p.root;
     if (rk == 0 && ro.chance(2, 5)) { p.par["scribble"] = (int64_t)((ro.next() >> 2) | 1); p.faults.push_back("F7:scribble"); }
     p.faults.push_back(fmt("F7:abandon@%zu", p.ops.size()));
@@ -172,6 +173,7 @@ Result reuse_execute(const Plan &p, const ExecCtx &c) {
     Outcome r1, r2;
     if (!only_fresh) {
         PSession ps(t1, sink, r.cnt);
+        ps.lead = (int)p.P("lead");
         ps.setup(p.max_depth, p.prefill, p.doc, p.root != 0);
         ps.use_cb = !p.P("nocb");
         for (auto &o : p.ops) {
@@ -196,6 +198,7 @@ Result reuse_execute(const Plan &p, const ExecCtx &c) {
     }
     {
         PSession pf(t2, sink, r.cnt);
+        pf.lead = (int)p.P("lead2");
         pf.setup(p.max_depth, 0, p.doc, p.root != 0);
         pf.use_cb = !p.P("nocb");
         if (rk != 0) pf.call(last_init);        // prerequisite of reset / verify: the same delivery the reused object last saw
